@@ -208,9 +208,10 @@ class TcpConnection(object):
             return
 
         sock = self.__socket
-        if not eventType & POLL_EVENT_TYPE.READ:
+        if not eventType & POLL_EVENT_TYPE.READ and self.__state != CONNECTION_STATE.CONNECTING:
             # (When there is something to read the peer is not silent: a link that was merely idle
-            # for longer than the time-out must not be closed by the first message that arrives.)
+            # for longer than the time-out must not be closed by the first message that arrives.
+            # And while the connection is being established there is nobody yet who could be silent.)
             self.__processConnectionTimeout()
             if self.__isGone(sock):
                 return
@@ -221,6 +222,9 @@ class TcpConnection(object):
                 return
 
             if self.__state == CONNECTION_STATE.CONNECTING:
+                # The read time-out counts from now: a handshake that took longer than the time-out
+                # must not make the first send (of the callback below) close the new connection.
+                self.__lastReadTime = monotonicTime()
                 if self.__onConnected is not None:
                     self.__onConnected()
                 if self.__isGone(sock):
